@@ -37,12 +37,14 @@ func vArgs(n int) (args []interface{}, kinds []int) {
 			args = append(args, Skip()) // a typed field that encodes to nothing is still a typed field
 		case 9:
 			args = append(args, NamedError(vName("nilerr", i), nil)) // what zap.Error(err) gives for a nil err
+		case 10:
+			args = append(args, error((*vPtrErr)(nil))) // a non-nil error interface holding a nil pointer: still an error argument
 		}
 	}
 	return
 }
 
-const vArgKinds = 10
+const vArgKinds = 11
 
 // vArgSame: the caller's argument is still the value the caller put there.
 func vArgSame(a, b interface{}, kind int) bool {
@@ -74,6 +76,12 @@ type vDiag struct {
 	badPairs    [][3]interface{}
 }
 
+// vRefErrField: an error argument (any non-nil error interface, whatever it holds) is an error field, written
+// down here without going through the constructors under test.
+func vRefErrField(key string, e error) Field {
+	return Field{Key: key, Type: zapcore.ErrorType, Interface: e}
+}
+
 func vSweetenRef(args []interface{}) (fields []Field, d vDiag) {
 	seenErr := false
 	for i := 0; i < len(args); {
@@ -85,7 +93,7 @@ func vSweetenRef(args []interface{}) (fields []Field, d vDiag) {
 		if e, ok := args[i].(error); ok {
 			if !seenErr {
 				seenErr = true
-				fields = append(fields, NamedError("error", e))
+				fields = append(fields, vRefErrField("error", e))
 			} else {
 				d.extraErrors = append(d.extraErrors, e)
 			}
@@ -97,7 +105,11 @@ func vSweetenRef(args []interface{}) (fields []Field, d vDiag) {
 			break
 		}
 		if ks, ok := args[i].(string); ok {
-			fields = append(fields, Any(ks, args[i+1]))
+			if ev, isErr := args[i+1].(error); isErr {
+				fields = append(fields, vRefErrField(ks, ev))
+			} else {
+				fields = append(fields, Any(ks, args[i+1]))
+			}
 		} else {
 			d.badPairs = append(d.badPairs, [3]interface{}{i, args[i], args[i+1]})
 		}
@@ -171,7 +183,7 @@ func vCheckSweeten(n int) {
 	vrt.Assert("one-diagnostic-per-extra-error", len(multi) == len(diag.extraErrors))
 	for i := range diag.extraErrors {
 		if i < len(multi) {
-			vrt.Assert("extra-error-identified", multi[i].ent.Level == zapcore.ErrorLevel && vFieldsSame(multi[i].fields[len(multi[i].fields)-1:], []Field{Error(diag.extraErrors[i])}))
+			vrt.Assert("extra-error-identified", multi[i].ent.Level == zapcore.ErrorLevel && vFieldsSame(multi[i].fields[len(multi[i].fields)-1:], []Field{vRefErrField("error", diag.extraErrors[i])}))
 		}
 	}
 	vrt.Assert("dangling-key-reported", len(odd) == len(diag.dangling))
@@ -202,7 +214,7 @@ func vCheckSweeten(n int) {
 	vrt.Cover("done")
 }
 
-//verif: prop=C14 bounds="argument lists of length 0..3 over 10 element kinds (typed field, a typed no-op field (Skip, and Error of a nil error), bare error, the same error value again, an error of uncomparable dynamic type, string key, non-string key, nil, other value; int64 payloads symbolic) through Infow/Debugw/Errorw/Logw/With/WithLazy; the caller's argument slice is unchanged afterwards"
+//verif: prop=C14 bounds="argument lists of length 0..3 over 11 element kinds (typed field, a typed no-op field (Skip, and Error of a nil error), bare error, a bare error that is a typed nil pointer, the same error value again, an error of uncomparable dynamic type, string key, non-string key, nil, other value; int64 payloads symbolic) through Infow/Debugw/Errorw/Logw/With/WithLazy; the caller's argument slice is unchanged afterwards"
 func VC14Sweeten3() { vCheckSweeten(vrt.IntRange("n", 0, 3)) }
 
 //verif: prop=C14 tier=thorough bounds="argument lists of length 4 and 5"
